@@ -606,6 +606,8 @@ func runLint(which string) {
 			sites += n
 			hits = append(hits, h...)
 		}
+	case "L19":
+		sites, hits = montgomeryLimbReads(fns)
 	case "L17":
 		eff := NewEffects(p)
 		var inits []onceInit
@@ -743,4 +745,183 @@ func byteCountMismatch(p *Program, fn *ssa.Function) (decided bool, ok bool, msg
 		}
 	}
 	return
+}
+
+// ---------- L19: Montgomery limbs are not numbers ----------
+
+func isFieldPkgPath(path string) bool {
+	rel := relPkg(path)
+	seg := strings.Split(rel, "/")
+	if len(seg) == 3 && seg[0] == "ecc" && (seg[2] == "fp" || seg[2] == "fr") {
+		return true
+	}
+	if len(seg) == 2 && seg[0] == "field" && (seg[1] == "koalabear" || seg[1] == "babybear" || seg[1] == "goldilocks") {
+		return true
+	}
+	return false
+}
+
+// isFieldElementType: named type Element of a field package.
+func isFieldElementType(t types.Type) bool {
+	if p, ok := t.(*types.Pointer); ok {
+		t = p.Elem()
+	}
+	n, ok := t.(*types.Named)
+	return ok && n.Obj().Name() == "Element" && n.Obj().Pkg() != nil && isFieldPkgPath(n.Obj().Pkg().Path())
+}
+
+// regularForm: the element value/address v comes from Bits()/fromMont/ToRegular/BigInt-like
+// conversions (canonical integer limbs).
+func regularForm(v ssa.Value, depth int) bool {
+	if depth > 8 {
+		return false
+	}
+	switch x := v.(type) {
+	case *ssa.Call:
+		n := calleeOf(&x.Call).Name
+		return n == "Bits" || n == "ToRegular" || n == "fromMont" || n == "FromMont"
+	case *ssa.Extract:
+		return regularForm(x.Tuple, depth+1)
+	case *ssa.ChangeType:
+		return regularForm(x.X, depth+1)
+	case *ssa.Convert:
+		return regularForm(x.X, depth+1)
+	case *ssa.IndexAddr:
+		return regularForm(x.X, depth+1)
+	case *ssa.Index:
+		return regularForm(x.X, depth+1)
+	case *ssa.Alloc:
+		// local holding the result of Bits(): every store into it (whole or field) is regular
+		n := 0
+		ok := true
+		var visit func(a ssa.Value, d int)
+		visit = func(a ssa.Value, d int) {
+			if d > 6 || a.Referrers() == nil {
+				return
+			}
+			for _, r := range *a.Referrers() {
+				switch y := r.(type) {
+				case *ssa.Store:
+					if y.Addr == a {
+						n++
+						if !regularForm(y.Val, depth+1) {
+							ok = false
+						}
+					}
+				case *ssa.FieldAddr:
+					visit(y, d+1)
+				case *ssa.IndexAddr:
+					if _, isElem := y.Type().(*types.Pointer).Elem().Underlying().(*types.Array); isElem {
+						visit(y, d+1) // element of an array of field elements
+					}
+				case ssa.CallInstruction:
+					cn := calleeOf(y.Common()).Name
+					if len(y.Common().Args) > 0 && y.Common().Args[0] == a && (cn == "fromMont" || cn == "FromMont") {
+						n++
+					}
+				}
+			}
+		}
+		visit(x, 0)
+		return n > 0 && ok
+	case *ssa.FieldAddr:
+		return regularForm(x.X, depth+1)
+	case *ssa.Field:
+		return regularForm(x.X, depth+1)
+	case *ssa.UnOp:
+		if x.Op == token.MUL {
+			return regularForm(x.X, depth+1)
+		}
+	case *ssa.Phi:
+		for _, e := range x.Edges {
+			if !regularForm(e, depth+1) {
+				return false
+			}
+		}
+		return len(x.Edges) > 0
+	}
+	return false
+}
+
+// montgomeryLimbReads: outside the field packages, reads of a limb of a field element that is
+// not in regular form and whose value is used as a number (anything but an OR-chain zero test).
+func montgomeryLimbReads(fns []*ssa.Function) (sites int, hits []Finding) {
+	for _, fn := range fns {
+		if isFieldPkgPath(fnPkgPath(fn)) {
+			continue
+		}
+		for _, b := range fn.Blocks {
+			for _, in := range b.Instrs {
+				var limb ssa.Value
+				var base ssa.Value
+				switch x := in.(type) {
+				case *ssa.UnOp:
+					if x.Op != token.MUL {
+						continue
+					}
+					ia, ok := x.X.(*ssa.IndexAddr)
+					if !ok || !isFieldElementType(ia.X.Type()) {
+						continue
+					}
+					limb, base = x, ia.X
+				case *ssa.Index:
+					if !isFieldElementType(x.X.Type()) {
+						continue
+					}
+					limb, base = x, x.X
+				default:
+					continue
+				}
+				sites++
+				if regularForm(base, 0) {
+					continue
+				}
+				if onlyZeroTested(limb, 0) {
+					continue
+				}
+				hits = append(hits, Finding{fn, instrPos(in), "montgomery-limb-as-number(" + descValue(base, 0) + ")",
+					fmt.Sprintf("%s reads a limb of %s, which is in Montgomery form (not produced by Bits()/fromMont), and uses it as a number: parity, ordering or bit tests on Montgomery limbs are unrelated to the element's value", funcKey(fn), descValue(base, 0))})
+			}
+		}
+	}
+	return
+}
+
+// onlyZeroTested: the value is only OR-ed with other values and finally compared with zero (or
+// returned as such an OR): the zero test is representation independent.
+func onlyZeroTested(v ssa.Value, depth int) bool {
+	if depth > 12 || v.Referrers() == nil {
+		return false
+	}
+	refs := *v.Referrers()
+	if len(refs) == 0 {
+		return true
+	}
+	for _, r := range refs {
+		switch x := r.(type) {
+		case *ssa.BinOp:
+			switch x.Op {
+			case token.OR:
+				if !onlyZeroTested(x, depth+1) {
+					return false
+				}
+			case token.EQL, token.NEQ:
+				if k, ok := constInt(x.Y); !ok || k != 0 {
+					if k2, ok2 := constInt(x.X); !ok2 || k2 != 0 {
+						return false
+					}
+				}
+			default:
+				return false
+			}
+		case *ssa.Return, *ssa.DebugRef:
+		case *ssa.Phi:
+			if !onlyZeroTested(x, depth+1) {
+				return false
+			}
+		default:
+			return false
+		}
+	}
+	return true
 }
